@@ -16,6 +16,8 @@ instance (c : Nat) : Decidable (IsScalar c) := by unfold IsScalar; infer_instanc
 /-- a name numpy can store: scalar values only, and not ending in U+0000 (numpy strips those itself) -/
 def NameOK (n : Name) : Prop := (∀ c ∈ n, IsScalar c) ∧ n.getLast? ≠ some 0
 
+instance (n : Name) : Decidable (NameOK n) := by unfold NameOK; infer_instance
+
 theorem utf8Decode_encodeChar (c : Nat) (hc : IsScalar c) (rest : List Nat) :
     utf8Decode (utf8EncodeChar c ++ rest) = (utf8Decode rest).map (c :: ·) := by
   unfold IsScalar at hc
